@@ -29,6 +29,7 @@ type Obligation struct {
 	Secs   float64
 	Model  string
 	Script string            // full script for this obligation alone (filled for failures)
+	Note   string            // engine-side explanation (e.g. which arrays escape the frame)
 	Replay string            // replay driver declared for the function
 	Values map[string]string // model values of the replay terms
 }
@@ -110,10 +111,13 @@ type State struct {
 	frameAxioms []string // "objects allocated before the call are unchanged" facts, instantiated at loads
 	instDone    map[string]bool
 	instSeen    map[string]int
+	written     map[string]bool // heap / ghost arrays written at a non-private index on this path (frame check)
+	havocked    []string        // havoc patterns applied on this path (frame check)
 	known       map[string]string
 	allocConst  map[string]bool
 	sawTokens   bool
 	inDetached  bool
+	loopHavoc   bool
 	lockSnap    *Snapshot         // state right after the most recent lock acquisition
 	lockSnaps   []*Snapshot       // every lock acquisition of this call, in order
 	private     map[string]bool   // objects allocated by this call and not yet published
@@ -129,7 +133,7 @@ type ctxRec struct {
 func (e *Engine) newState() *State {
 	return &State{e: e, heap: map[string]string{},
 		declared: map[string]bool{}, nonnil: map[string]bool{}, locks: map[string]string{}, iters: map[string]*Iter{},
-		ctxs: map[string]ctxRec{}, funcs: map[string]*FuncV{}, birth: map[string]string{}, private: map[string]bool{}, mapOwner: map[string]mapOwner{}, chanOwner: map[string]chanOwner{}, recvd: map[string]bool{}, borrowed: map[string]string{}, instDone: map[string]bool{}, instSeen: map[string]int{}, known: map[string]string{}, allocConst: map[string]bool{}}
+		ctxs: map[string]ctxRec{}, funcs: map[string]*FuncV{}, birth: map[string]string{}, private: map[string]bool{}, mapOwner: map[string]mapOwner{}, chanOwner: map[string]chanOwner{}, recvd: map[string]bool{}, borrowed: map[string]string{}, instDone: map[string]bool{}, instSeen: map[string]int{}, written: map[string]bool{}, known: map[string]string{}, allocConst: map[string]bool{}}
 }
 
 func (st *State) clone() *State {
@@ -170,6 +174,11 @@ func (st *State) clone() *State {
 	for k, v := range st.instSeen {
 		n.instSeen[k] = v
 	}
+	n.written = map[string]bool{}
+	for k, v := range st.written {
+		n.written[k] = v
+	}
+	n.havocked = append([]string{}, st.havocked...)
 	n.known = copyMap(st.known)
 	n.allocConst = map[string]bool{}
 	for k, v := range st.allocConst {
@@ -484,7 +493,7 @@ func (st *State) logAxiom(name, base, sort string, upto int) {
 	if rec == nil || rec.before == nil {
 		return
 	}
-	if strings.HasPrefix(name, "G|cnt|") || name == "G|nclk" {
+	if strings.HasPrefix(name, "G|cnt|") || name == "G|nclk" || name == "G|delok" {
 		prev := st.arrIn(rec.before, name, "Int")
 		st.assume(fmt.Sprintf("(>= %s %s)", base, prev))
 		return
@@ -524,6 +533,10 @@ func (st *State) setArrRaw(name, sort, term string, invalidate bool) {
 func (st *State) alloc() string { return st.arr(allocName, "Int") }
 
 func (st *State) havoc(pat string) {
+	if pat != allocName && !strings.HasPrefix(pat, "G|it|") && !st.loopHavoc {
+		// (havocs at loop headers over-approximate what the body writes; the body's own writes are tracked)
+		st.havocked = append(st.havocked, pat)
+	}
 	st.e.counter++
 	rec := havocRec{pat: pat, id: st.e.counter}
 	if pat != allocName {
@@ -557,6 +570,7 @@ func (st *State) arrIn(sn *Snapshot, name, sort string) string {
 	if !st.declared[base] {
 		st.declBase(base, sort, st.e.ghostInit[name])
 		st.refAxiom(name, base, sort, sn.n)
+		st.logAxiom(name, base, sort, sn.n)
 	}
 	if sn.n == len(st.havocs) {
 		if _, ok := st.heap[name]; !ok {
